@@ -92,6 +92,8 @@ package protocol
 //@   ensures[C06,C16] len: len(packet) == len(data) + 8
 //@   ensures[C06,C16] hdr: le16(packet, 0) == pktType && le16(packet, 2) == 0 && le32(packet, 4) == uint32(len(data) + 8)
 //@   ensures[C06,C16] body: forall i :: 8 <= i && i < len(data) + 8 ==> packet[i] == data[i-8]
+// the packet is the caller's own memory: nothing another tunnel can reach (a pooled or package-level buffer) backs it
+//@   ensures[C07] owned: fresh(packet)
 //@   nopanic[C10]
 
 //@ func (*Processor).handshakeResponse
